@@ -152,8 +152,7 @@ macro_rules! lex_arm {
             let src = text_after($first, $n);
             let mut c = Cursor::new(src);
             let r1 = c.advance_token();
-            let ok = r1.is_ok();
-            kani::cover!(ok);
+            kani::cover!(true, "the arm's token or diagnostic is produced");
             check_lexed(src, r1);
         }
     };
